@@ -59,6 +59,7 @@ def main():
     ap.add_argument('--tests', action='store_true')
     ap.add_argument('--demo', default='demo.py')
     ap.add_argument('--props', default=','.join(CLAIMED))
+    ap.add_argument('--skip-checks', action='store_true')
     a = ap.parse_args()
     d = a.dir or f'/tmp/seed/{a.id}'
     wt = f'{d}/wt'
@@ -84,6 +85,9 @@ def main():
         out['stable'] = n
         out['stable_missing'] = missing
         print('stable tests', n, 'missing', len(missing), missing[:5])
+    if a.skip_checks:
+        json.dump(out, open(f'{d}/eval.json', 'w'), indent=1)
+        return 0
     # checks
     st = sh('git -C /repo status --porcelain').stdout.strip()
     if st:
